@@ -229,3 +229,71 @@ func vxH05Auth() {
 		vxAssert(len(rs) == 1 && rs[0].Rc.Type == Rerror, "refused-attach-gets-error")
 	}
 }
+
+// H05.visible: when a reply is handed to the sender, the request's effects are already in place, in every schedule.
+func vxH05Visible(kind int) {
+	k := vxNewKit(false, false, 8192, true)
+	conn := k.conn
+	conn.reqout = make(chan *SrvReq) // rendezvous with the observer below
+	k.ops.qid = Qid{Type: vxU8("qtype"), Path: 9}
+	fid := k.addFid(conn, 1, k.users.u1, QTDIR)
+	tc := &Fcall{Type: uint8(kind), Tag: 3, Fid: 1, Afid: NOFID}
+	mode := vxU8("mode")
+	switch kind {
+	case Tattach:
+		tc.Fid = 2
+		tc.Unamenum = 0
+	case Twalk:
+		tc.Newfid = 2
+	case Topen:
+		fid.Type = 0
+		tc.Mode = mode
+	case Tcreate:
+		tc.Mode = OREAD
+		tc.Name = "n"
+	}
+	type snap struct {
+		present1, present2 bool
+		opened           bool
+		omode, ftype     uint8
+		user2            User
+		rtype            uint8
+	}
+	got := make(chan snap, 1)
+	go func() {
+		r := <-conn.reqout
+		var s snap
+		s.rtype = r.Rc.Type
+		f1, ok1 := conn.fidpool[1]
+		f2, ok2 := conn.fidpool[2]
+		s.present1, s.present2 = ok1, ok2
+		if ok1 {
+			s.opened, s.omode, s.ftype = f1.opened, f1.Omode, f1.Type
+		}
+		if ok2 {
+			s.user2 = f2.User
+		}
+		got <- s
+	}()
+	req := k.newReq(conn, tc, 256)
+	req.Process()
+	s := <-got
+	switch kind {
+	case Tattach:
+		vxAssert(s.rtype == Rattach, "attach-answered")
+		vxAssert(s.present2 && s.user2 == User(k.users.u0), "attached-fid-valid-when-reply-is-sent")
+	case Twalk:
+		vxAssert(s.rtype == Rwalk, "walk-answered")
+		vxAssert(s.present2 && s.user2 == User(k.users.u1), "walked-fid-valid-when-reply-is-sent")
+	case Topen:
+		vxAssert(s.rtype == Ropen, "open-answered")
+		vxAssert(s.opened && s.omode == mode, "fid-open-when-reply-is-sent")
+	case Tcreate:
+		vxAssert(s.rtype == Rcreate, "create-answered")
+		vxAssert(s.opened && s.ftype == k.ops.qid.Type, "created-fid-open-and-typed-when-reply-is-sent")
+	case Tclunk:
+		vxAssert(s.rtype == Rclunk, "clunk-answered")
+		vxAssert(!s.present1, "clunked-fid-invalid-when-reply-is-sent")
+	}
+	vxReach("done")
+}
